@@ -177,6 +177,8 @@ def run_schedule(case, choices, drops_per_op):
             sched.pending.pop(j)
             try:
                 p["fut"].set_result(agent.handle(p["data"], timeout=p["timeout"], retries=p["retries"]))
+            except vagent.Silent as e:
+                p["fut"].set_exception(Timeout("the agent does not answer: %s" % e))
             except vagent.AgentInternalError as e:
                 p["fut"].set_exception(e)
                 info["agent_error"] = str(e)
